@@ -23,7 +23,7 @@ REDUCED = ['gdown4', 'gammadown3', 'Kdown3', 'betaup3', 'dtbetaup3', 'rho',
            'enthalpy', 'rho_n', 'eweyl_n_down3', 'Weyl_invariants',
            'dtconserved']
 HELPERS = ['h:s_covd_u', 'h:Lie_dd', 'h:s_curl', 'h:tetrad_base',
-           'h:null_ray', 'h:st_covd_d']
+           'h:null_ray', 'h:st_covd_d', 'h:null_vector_base']
 CORE_KW = {'center': (3.0, 3.0, 3.0), 'extract_radii': [1.0], 'lmax': 2}
 _INPUT_CACHE = {}
 
@@ -72,6 +72,13 @@ def config_inputs(cfg, N, seed):
     param = fields.grid(N)
     X, Y, Z = fields.mesh(param)
     kw = dict(CORE_KW)
+    if cfg == 'tensor_other':
+        # same exact solution, fluid-adapted tetrad (e0 = u is then the very
+        # array cached as uup4)
+        inp, kw0, F, param = config_inputs('tensor', N, seed)
+        kw0 = dict(kw0, tetrad='other')
+        _INPUT_CACHE[key] = (inp, kw0, F, param)
+        return _INPUT_CACHE[key]
     if cfg in ('tensor', 'components', 'partial'):
         if cfg == 'partial':
             st = fields.lattice('L1', 'S2', 'G2', 'D1', Lambda=0.3,
@@ -183,6 +190,8 @@ def do_op(rel, op, F):
             return rel.tetrad_base()
         if op == 'h:null_ray':
             return rel.null_ray_expansion(F['r'], 'out')
+        if op == 'h:null_vector_base':
+            return rel.null_vector_base()
         if op == 'h:st_covd_d':
             return rel.st_covd(F['U'], 0.1 * F['U'], 'd')
     raise ValueError(op)
